@@ -8,7 +8,9 @@ PROP = "C07"
 GEN = ["GenExcs"]
 ASSUMPTIONS = [
     "the four serializer libraries return plain data (None/bool/int/str/list/str-keyed dict) unchanged and refuse an "
-    "`object()` instance (model parameter `codec`; instance std_codec validated by every correspondence case)",
+    "`object()` instance (model parameter `codec`; instance std_codec validated by every correspondence case); the class of the "
+    "error a serializer raises for unserialisable content (model parameter `serr`) is measured per case by calling "
+    "serializers[...].dumps(exc) directly, outside the daemon",
     "cls(*args).args == args for the generated argument tuples (model parameter `ctor`; probed per case, cases whose "
     "constructor rejects or rewrites the arguments are skipped and counted)",
     "the server side is driven synchronously through tools/lib/loopback.py with the containment of the thread server "
@@ -32,6 +34,9 @@ def rig(ctx):
 
 
 # ---------------------------------------------------------------- Gallina printers
+_SERR = [None]     # class of the error the serializer raises for the current case's content (probe_dumps)
+
+
 def c_xval(v):
     if v is None:
         return "XNone"
@@ -45,6 +50,8 @@ def c_xval(v):
         return "(XList %s)" % clist([c_xval(x) for x in v])
     if "$opaque" in v:
         return "XOpaque"
+    if "$bad" in v or "$deep" in v:
+        return "(XBadObj %s)" % c_cinfo(_SERR[0])
     return "(XDict %s)" % c_attrs(v["$dict"])
 
 
@@ -79,6 +86,7 @@ def c_outcome(o):
 
 
 def c_case(case, canon, obs, quirks):
+    _SERR[0] = canon.get("serr")
     kind = {"plain": "KPlain", "attr": "KAttr", "stream": "KStream"}.get(case["kind"])
     if kind is None:
         kind = "(KBatch %s)" % clist(["(XInt %s)" % cZ(100 + i) for i in range(case.get("before", 0))])
@@ -148,6 +156,8 @@ def oracle(case, canon, obs):
                 bad.append(("marshal-batch-unmarshallable", "%s: caller got %s" % (where, out.get("cls"))))
             else:
                 bad.append(("no-pyro-error-for-unserialisable", "%s: caller got %s (%r) instead of a Pyro error describing %s" % (where, out.get("cls"), text[:120], short)))
+        if k == "fallback" and ("Original exception: %s: %s" % (canon["typerepr"], canon["str"])) not in text:
+            bad.append(("fallback-does-not-describe-original", "%s: the generic error %r does not name the original class and message (%s: %s)" % (where, text[:160], canon["typerepr"], canon["str"][:80])))
         if k == "fallback" and not out["tb"]:
             bad.append(("traceback-missing", "%s: the fallback error carries no remote traceback" % where))
     if k not in ("local",) and not obs["next_ok"]:
@@ -196,7 +206,24 @@ def gen_attrs(rng, opaque):
     attrs = [[k, gen_val(rng)] for k in names]
     if opaque == "attr":
         attrs.append(["bad", dict(c07impl.OPAQUE) if rng.random() < 0.6 else [1, dict(c07impl.OPAQUE)]])
+    if opaque == "bad":
+        b = gen_bad(rng, deep_ok=True)
+        attrs.append(["bad", b if rng.random() < 0.7 or "$deep" in b else [rng.choice(WORDS), b]])
     return attrs
+
+
+SERR_POOL = ["builtins.AttributeError", "builtins.KeyError", "builtins.RuntimeError", "builtins.ZeroDivisionError",
+             "builtins.OSError", "c07mod.UserError", "builtins.LookupError", "builtins.AssertionError", "builtins.TypeError",
+             "builtins.ValueError", "Pyro5.errors.SerializeError", "builtins.RecursionError", "builtins.MemoryError",
+             "builtins.UnicodeError", "builtins.StopIteration", "Pyro5.errors.NamingError"]
+DEEP = 5000
+
+
+def gen_bad(rng, deep_ok):
+    """a value whose serialisation fails, with an error class drawn from a wide pool"""
+    if deep_ok and rng.random() < 0.12:
+        return {"$deep": DEEP}
+    return {"$bad": {"how": rng.choice(c07impl.BAD_HOWS), "raises": rng.choice(SERR_POOL)}}
 
 
 def gen_cases(ctx, classes):
@@ -209,11 +236,13 @@ def gen_cases(ctx, classes):
             for kind in c07impl.KINDS:
                 reps = per_combo if (ctx.quick and rng.random() < 0.55) or not ctx.quick else per_combo + 1
                 for _ in range(reps):
-                    opaque = rng.choice([None] * 7 + ["attr", "arg"])
+                    opaque = rng.choice([None] * 7 + ["attr", "arg", "bad", "bad", "badarg"])
                     sh = shapes(rng)
                     args = sh[0] if rng.random() < 0.5 else rng.choice(sh[1:])
                     if opaque == "arg":
                         args = list(args) + [dict(c07impl.OPAQUE)]
+                    if opaque == "badarg":
+                        args = list(args) + [gen_bad(rng, deep_ok=False)]
                     case = {"ser": ser, "kind": kind, "cls": cls, "args": args, "attrs": gen_attrs(rng, opaque),
                             "alt_args": sh[1:5]}
                     if kind == "batch":
@@ -243,6 +272,15 @@ def targeted():
                 ("builtins.OSError", [2, "nf"], []),
                 ("builtins.ValueError", ["x"], [["_pyroTraceback", "mine"]]),
                 ("c07mod.UserError", ["m", 1], []),
+                ("builtins.ValueError", ["original message"], [["payload", {"$bad": {"how": "slots", "raises": "builtins.AttributeError"}}]]),
+                ("builtins.ValueError", ["original message"], [["payload", {"$bad": {"how": "getstate", "raises": "builtins.KeyError"}}]]),
+                ("builtins.RuntimeError", ["r", 2], [["payload", {"$bad": {"how": "getstate", "raises": "builtins.ZeroDivisionError"}}]]),
+                ("builtins.KeyError", ["k"], [["payload", [1, {"$bad": {"how": "getstate", "raises": "c07mod.UserError"}}]]]),
+                ("Pyro5.errors.NamingError", ["n"], [["payload", {"$bad": {"how": "dictprop", "raises": "builtins.OSError"}}]]),
+                ("builtins.ValueError", ["v", {"$bad": {"how": "getstate", "raises": "builtins.RuntimeError"}}], []),
+                ("builtins.ValueError", ["original message"], [["payload", {"$bad": {"how": "iter", "raises": "builtins.LookupError"}}]]),
+                ("builtins.ValueError", ["original message"], [["payload", {"$bad": {"how": "len", "raises": "builtins.AssertionError"}}]]),
+                ("builtins.ValueError", ["original message"], [["payload", {"$deep": DEEP}]]),
                 ("__main__.DunderModuleError", ["m"], []),
             ]:
                 out.append(dict({"ser": ser, "kind": kind, "cls": cls, "args": args, "attrs": attrs}, **b))
@@ -264,7 +302,11 @@ def run_one(ctx, case, res=None):
                 break
         if exc is None:
             return None, canon
-    obs = c07impl.run_call(r, case, exc)
+    if any(c07impl.has_opaque(a) for a in canon["args"]) or any(c07impl.has_opaque(v) for _, v in canon["attrs"]):
+        canon["serr"] = c07impl.probe_dumps(case["ser"], exc)
+        if canon["serr"] is None:
+            return None, "bad-value-serialisable"     # this library copes with the value: outside the domain
+    obs = c07impl.run_call(r, case, exc, canon)
     return canon, obs
 
 
@@ -324,7 +366,10 @@ def run(ctx, model_ok=True):
     res.extra["classes_never_constructible"] = sorted(c for c in classes if c not in ran)
     res.rule = ("every exception class of builtins and Pyro5.errors (plus three classes unknown to the receiver) x 4 serializers x "
                 "{plain call, exposed property, stream item, batch member at position 0..3} x generated args/attributes from "
-                "None/bool/int/str/list/dict, 1 in 4.5 with an unserialisable object() in args or attributes; classes whose "
+                "None/bool/int/str/list/dict, 5 in 12 with unserialisable content in args or attributes: a bare object(), objects whose "
+                "__getstate__ / unassigned slot / __dict__ property / dict or list protocol raises a class drawn from a pool of 16 "
+                "(AttributeError, KeyError, RuntimeError, ZeroDivisionError, OSError, a user class, ...), a list nested 5000 deep; "
+                "the class of the serializer's error is measured per case by calling serializer.dumps directly; classes whose "
                 "constructor rejects every tried argument tuple are skipped and counted; distinct = distinct case hash")
     res.samples = [c for c in cases if "alt_args" not in c][:5]
     return res
